@@ -35,8 +35,14 @@ Definition chk_nil (k : kase) : bool :=
 Definition chk_interp (k : kase) : bool := let '(_, _, _, _, _, io, _) := k in obs_eqb (model_builtin k) io.
 Definition in_scope (k : kase) : bool := match model_spec k with (9, _, _) => false | _ => true end.
 Definition chk_spec (k : kase) : bool := let '(_, _, _, _, _, _, bo) := k in negb (in_scope k) || obs_eqb (model_spec k) bo.
-Fixpoint bad (f : kase -> bool) (i : nat) (cs : list kase) : list nat :=
-  match cs with [] => [] | k :: r => if f k then bad f (S i) r else i :: bad f (S i) r end.
+(* one evaluation of the model per case: bit 0 Format differs, 1 nil-Format differs, 2 builtin differs,
+   3 Spec (inside its domain) differs from bash, 4 inside the Spec's domain *)
+Definition mask (k : kase) : N :=
+  let '(p, f, a, fo, no, io, bo) := k in
+  let sp := model_spec k in
+  let sc := match sp with (9, _, _) => false | _ => true end in
+  (if chk_fmt k then 0 else 1) + (if chk_nil k then 0 else 2) + (if obs_eqb (model_builtin k) io then 0 else 4)
+  + (if negb sc || obs_eqb sp bo then 0 else 8) + (if sc then 16 else 0).
 """
 
 
@@ -85,7 +91,7 @@ def run(ctx):
     binp = ctx.go_build("c24")
     if not binp:
         return
-    n = 1500 if ctx.tier == "quick" else 20000
+    n = 1200 if ctx.tier == "quick" else 20000
     rc, rows, err = ctx.jsonl([binp, "gen", "-seed", str(ctx.seed), "-n", str(n)], timeout=1200)
     if ctx.tier == "thorough":
         rc2, rows2, err2 = ctx.jsonl([binp, "exhaustive", "-n", "4"], timeout=1800)
@@ -140,31 +146,38 @@ def run(ctx):
     # ---------------- code legs + oracle leg inside the Coq kernel
     m_fmt, m_nil, m_int, m_spec, scope_twin = [], [], [], [], []
     n_printf = n_scope = 0
-    SH = 1000
-    for sh in range(0, len(rows), SH):
+    SH = 400 if ctx.tier == "quick" else 1000
+
+    def eval_shard(sh):
         part = rows[sh:sh + SH]
         items = []
         for r in part:
             isp = r["kind"] == "printf"
-            n_printf += isp
             items.append("(%s,%s,%s,%s,%s,%s,%s)" % ("true" if isp else "false", coq_bytes(r["fmt"]),
                                                      coq_list([coq_bytes(a) for a in r["args"]]),
                                                      fobs(r) if isp else obs3(0, "", 0),
                                                      coq_bytes(r["nout"]) if isp and r["nout"] != "P" else "[]",
                                                      iobs(r["iout"], r["ist"]), iobs(r["bout"], r["bst"])))
-        text = PRELUDE + "Definition cases : list kase := %s.\n" % coq_list(items) + """
-Definition MF := Eval vm_compute in bad chk_fmt 0 cases.
-Definition MN := Eval vm_compute in bad chk_nil 0 cases.
-Definition MI := Eval vm_compute in bad chk_interp 0 cases.
-Definition MS := Eval vm_compute in bad chk_spec 0 cases.
-Definition SC := Eval vm_compute in bad (fun k => negb (in_scope k)) 0 cases.
-Print MF. Print MN. Print MI. Print MS. Print SC.
-"""
+        text = PRELUDE + "Definition cases : list kase := %s.\n" % coq_list(items) + \
+            "Definition R := Eval vm_compute in map mask cases.\nPrint R.\n"
         ok, out = ctx.coq_cases("c24_%d" % sh, text, timeout=1500)
-        lists = [idx_list(out, nm) for nm in ("MF", "MN", "MI", "MS", "SC")]
-        if not ok or any(l is None for l in lists):
-            ctx.broken.append(("correspondence:code-eval", "coqc on generated cases failed: " + out[-800:]))
+        m = re.search(r"R\s*=\s*\[([^\]]*)\]", out)
+        if not ok or not m:
+            return part, None, "coqc on generated cases failed: " + out[-800:]
+        masks = [int(x) for x in re.findall(r"\d+", m.group(1))]
+        if len(masks) != len(part):
+            return part, None, "mask count %d != %d" % (len(masks), len(part))
+        return part, masks, ""
+
+    from concurrent.futures import ThreadPoolExecutor
+    with ThreadPoolExecutor(max_workers=4) as ex:
+        results = list(ex.map(eval_shard, range(0, len(rows), SH)))
+    for part, masks, msg in results:
+        if masks is None:
+            ctx.broken.append(("correspondence:code-eval", msg))
             return
+        n_printf += sum(1 for r in part if r["kind"] == "printf")
+        lists = [[i for i, v in enumerate(masks) if v & bit] for bit in (1, 2, 4, 8, 16)]
         for lst, acc, what in ((lists[0], m_fmt, "Format"), (lists[1], m_nil, "Format(nil args)"),
                                (lists[2], m_int, "builtin"), (lists[3], m_spec, "spec-vs-bash")):
             for i in lst:
